@@ -988,12 +988,16 @@ def main():
     import mystic.coupler as cp
     import mystic.penalty as mp
     if a.selftest:
-        return selftest(a, mc, cp, mp)
+        from harness.c17_bridges import selftest_bridges
+        rc = selftest(a, mc, cp, mp)
+        return selftest_bridges(a) or rc
     if a.replay:
         return replay_artefact(a, mc)
     ck = new_check(a)
     out = explore(ck, mc, cp, mp, a)
     out["observations"] = observations(mc)
+    from harness.c17_bridges import bridges_part      # with_penalty .. has_unique: specs/cons/Bridges.tla
+    bridges_part(ck, a)
     return ck.finish()
 
 
